@@ -1,5 +1,37 @@
-import FGVerif.Driver.Shared
-/-! driver operations for C02 (stub: replaced by the property's own driver) -/
+import FGVerif.Driver.C01
+import FGVerif.Model.C02
+/-!
+  driver operations for C02
+
+  (check <chain> <str> <rdkit canon | (raised K)> <impl canon | (raised K)>)
+    → (ok <model canon> <spec_model> <spec_impl> <rdkit agrees with smilesDenote 0|1> <Plain> <WF>)
+-/
 namespace C02
-def handle : List SExp → Option SExp := fun _ => none
+open SExp C01
+
+/-- RDKit's atom symbol for a written one (`c ↦ C`), from the generated `sym_map` -/
+def rdkitSym (s : String) : String :=
+  match Gen.rdkitSymMap.lookup s with
+  | some t => t
+  | none => s
+
+/-- the view `mol_to_graph` gives: symbols only (aromatic atoms upper-cased), same edges -/
+def rdkitView (g : Graph) : SExp :=
+  canonOf g.multi
+    (g.nodes.map fun n => (n.1, ({ symbol := n.2.symbol.map rdkitSym } : NodeAttr)))
+    (g.edges.map fun e => (e.1, e.2.1, e.2.2.2))
+
+def handle : List SExp → Option SExp
+  | [.atom "check", c, s, rd, impl] => do
+      let c ← asChain c
+      let s ← asStr s
+      if renderStr c != s then none
+      let d := smilesDenote c
+      let want := canonGraph d
+      let flags := [ofBool (rd == rdkitView d), ofBool (Plain c), ofBool (WF false c)]
+      match parse ⟨false, false⟩ s 0 with
+      | .ok g => pure (.list ([.atom "ok", canonGraph g, ofBool (canonGraph g == want), ofBool (impl == want)] ++ flags))
+      | .error e => pure (.list ([.atom "ok", ofErr e, ofBool false, ofBool (impl == want)] ++ flags))
+  | _ => none
+
 end C02
